@@ -12,7 +12,8 @@ import math
 import traceback
 from fractions import Fraction
 
-from build import (Definition, make_ui_model, ekf_args, named, fl, frac, interp, is_rat, BY_HARNESS, resolve_presentation)
+from build import (Definition, make_ui_model, ekf_args, named, fl, frac, interp, is_rat, BY_HARNESS, resolve_presentation,
+                   is_rational_tree, well_conditioned)
 
 RTOL = 1e-9
 
@@ -43,6 +44,8 @@ def _exp_value(q, tree, env):
             return None
         if math.isnan(v) or math.isinf(v) or abs(v) > 1e12:
             return None
+        if not is_rational_tree(tree) and not well_conditioned(tree, env, v):
+            return None       # ill-conditioned at this point (sin of a huge number, a pole nearby): "to floating-point accuracy" claims nothing here
         return v
     return None
 
@@ -145,6 +148,11 @@ def replay(scn, ui, python, cse=True, presentation=None, force_ekf=False):
     try:
         impl, model, symtab = build_py(d, ui, python, cse, want_ekf, presentation)
     except Exception as e:  # a valid definition must compile
+        if undefined_everywhere(scn):
+            # an expression that is undefined at every point (x / (dt - dt): sympy folds it to zoo, which neither back-end can
+            # spell): the properties quantify over points where the expressions are defined -- nothing to replay, no claim
+            res.skipped = "definition undefined everywhere: " + repr(e)[:120]
+            return res
         res.mismatches.append(Mismatch(step=-1, what="exception", name="compile",
                                        expected="accepted", observed=repr(e), tb=traceback.format_exc()[-1500:]))
         return res
@@ -343,6 +351,27 @@ def replay(scn, ui, python, cse=True, presentation=None, force_ekf=False):
     return res
 
 
+def undefined_everywhere(scn):
+    """some update / sensor expression of the definition is undefined (or non-finite) at EVERY evaluation point of the behaviour"""
+    d = Definition(scn["def"])
+    pts = []
+    for st in scn["steps"]:
+        if "x" in st:
+            env = {c: fl(d.calmap[c]) for c in d.calib}
+            env.update({n: fl(q) for n, q in named(st["x"]).items()})
+            env.update({n: fl(q) for n, q in named(st.get("u", {})).items()})
+            env["dt"] = fl(st["dt"]) if "dt" in st else 0.125
+            for c in d.control:
+                env.setdefault(c, 0.5)
+            pts.append(env)
+    if not pts:
+        return False
+    for t in list(d.update.values()) + [t for m in d.sensors.values() for t in m.values()]:
+        if all(_try(t, env) is None for env in pts):
+            return True
+    return False
+
+
 def _outside_domain(st, d, env, act):
     """True if some ByHarness output of this evaluation step is undefined at the point (division by zero, domain error)"""
     def undefined(q, tree):
@@ -367,7 +396,7 @@ def _try(tree, env):
     try:
         v = interp(tree, env)
         return v if (not math.isnan(v) and not math.isinf(v)) else None
-    except (ZeroDivisionError, ValueError, OverflowError):
+    except (ZeroDivisionError, ValueError, OverflowError, KeyError):
         return None
 
 
